@@ -11,7 +11,7 @@ import (
 func init() {
 	register("C10",
 		"completeness (that a moment in the same two-hour slot is always returned): a numeric for-all over moments near term instants, where the pinned tree is in fact incomplete for some slots that contain a Jie instant; strictness of the chronological order beyond the append-only shape.",
-		r10_1, r10_2, r10_3, r10_4, r10_5, r10_6, r05_4, r08_4, r05_3)
+		r10_1, r10_2, r10_3, r10_4, r10_5, r10_6, r10_7, r05_4, r08_4, r05_3)
 }
 
 func reverseLookup(c *Ctx, r *Report, rule string) *ssa.Function {
